@@ -71,8 +71,7 @@ theorem inv_run (touches : Nat → Nat → Bool) (g : G) (h : List Op)
 /-- the empty store a client starts with satisfies the invariant -/
 theorem inv_init (touches : Nat → Nat → Bool) (lo : Nat → Nat) (m : Nat) :
     Inv touches ⟨⟨[], m, [], []⟩, lo⟩ := by
-  refine ⟨List.nodup_nil, ?_, ?_, ?_, ?_, List.Pairwise.nil, ?_, ?_⟩
-  · intro e he; cases he
+  refine ⟨List.nodup_nil, ?_, ?_, ?_, List.Pairwise.nil, ?_, ?_⟩
   · intro e he; cases he
   · intro e he; cases he
   · intro r hr; cases hr
@@ -116,6 +115,31 @@ theorem old_partial_rule_loses :
   intro touches g
   refine ⟨inv_example_pending, ?_⟩
   intro p'
+  decide
+
+/-! ## the rollback number before the repair loses history (the defect fixed by 17fa136) -/
+
+/-- script 1 has been followed up to block 14; the chain forks at 8.  With the number the
+rollback used to record (9, the first REMOVED block), the first filter batch after the fork
+(blocks 9..11, block 9 matches) and a `set_scripts partial` for another script leave block 9 of
+the new chain neither indexed nor pending nor to be filtered again: the command rewinds to the
+number of the kept script, 9 -/
+theorem old_rollback_number_then_set_scripts_loses :
+    let p : P := ⟨[(1, 14)], 14, [], [(1, 9), (1, 3)]⟩
+    let p1 := applyW p (.rollback 9 9)
+    let p2 := applyWs p1 (filtersWrites p1 9 3 [9] true)
+    let p3 := applyWs p2 (setScriptsWrites p2 .part [(2, 100)])
+    (1, 9) ∈ p3.scripts ∧ p3.minF = 9 ∧ (1, 9) ∉ p3.indexed ∧ p3.records = [] := by
+  decide
+
+/-- the same history with the number recorded since the repair (8, the parent of the first
+removed block): the command rewinds to 8, block 9 is filtered again -/
+theorem rollback_number_then_set_scripts_refilters :
+    let p : P := ⟨[(1, 14)], 14, [], [(1, 9), (1, 3)]⟩
+    let p1 := applyWs p (forkWrites p 8)
+    let p2 := applyWs p1 (filtersWrites p1 9 3 [9] true)
+    let p3 := applyWs p2 (setScriptsWrites p2 .part [(2, 100)])
+    (1, 8) ∈ p3.scripts ∧ p3.minF = 8 ∧ p3.records = [] := by
   decide
 
 /-! ## non-vacuity -/
